@@ -375,10 +375,13 @@ selectmechanism:
 		} else {
 			return mask, nil, errUnexpectedPayload
 		}
+		return Authn, session.Conn(), nil
 	}
 
 	success := false
-	for more {
+	// Keep exchanging challenges and responses until the server reports
+	// success; the mechanism must have completed by then.
+	for !success {
 		select {
 		case <-ctx.Done():
 			return mask, nil, ctx.Err()
@@ -400,7 +403,11 @@ selectmechanism:
 		if more, resp, err = client.Step(challenge); err != nil {
 			return mask, nil, err
 		}
-		if !more && success {
+		if success {
+			if more {
+				// The server reported success before the mechanism completed.
+				return mask, nil, errUnexpectedPayload
+			}
 			// We're done with SASL and we're successful
 			break
 		}
